@@ -85,9 +85,11 @@ let step_checks (recv : eobs) (op : Hist.op) (out : eobs option) : (string * boo
   | Hist.OAlign (a, w, o) ->
     let d = dflt o in
     let sep = d.Options.o_linesep and psep = d.Options.o_parasep in
+    (* all separators kept: Align may trim white-space-only lines to nothing, and the line separators around
+       them can then read as one more paragraph separator - none may be lost *)
     let same = ("C07", Layout.guard_C07 cls t d w,
                 ck (fun r -> Layout.check_C07_same cls t r.text (if d.Options.o_preserve then [psep; sep] else [sep])
-                             && (not d.Options.o_preserve || Layout.count_occ_sep t psep = Layout.count_occ_sep r.text psep))) in
+                             && (not d.Options.o_preserve || int_of_z (Layout.count_occ_sep t psep) <= int_of_z (Layout.count_occ_sep r.text psep)))) in
     let valid_align = (int_of_z a >= 1 && int_of_z a <= 3) in
     if d.Options.o_preserve && valid_align then [same; ("C11", Paras.guard_C11_hom t d && Layout.guard_C07 cls t d w, ck (fun r -> Paras.check_C11_hom cls upp op t d r.text)); c18_valid; keeps]
     else [("C13", Layout.guard_C13 cls t sep w, ck (fun r -> Layout.check_C13 cls a t sep d.Options.o_notrailing w r.text));
